@@ -5,7 +5,7 @@ Buffer        every permutation of the serials 0..n-1 x every subset of drain po
               flush() after every distinct (arrival prefix, drain choice), followed by a second epoch.
 PrintBuffer   every permutation x (end, print_flush) variants into a StringIO (return value of print,
               output, len, waiting_for after every step); every history over print / flush() / clear()
-              on the serial universe 0..n-1 in which no late serial (< waiting_for) is fed after a flush.
+              on the serial universe 0..n-1 (each serial at most once per epoch; late serials after a flush included).
 CircularBuffer every put/clear sequence to the depth bound for the capacities 1..4, puts carry their
               sequence number, index probes i in [-2, c+1].
 
@@ -449,10 +449,11 @@ def pb_snippet(variant, hist):
 
 
 def pb_menu(n, max_f, max_c, state):
-    """computed on the reference only: unfed serials >= waiting_for (late serials after a flush are not
-    documented), flush() while fewer than max_f flushes, clear() while fewer than max_c clears"""
+    """computed on the reference only: unfed serials (one that a flush() skipped and that arrives late is, as print()
+    documents, stored for later like any serial that is not the awaited one), flush() while fewer than max_f flushes,
+    clear() while fewer than max_c clears"""
     fed, wait, held, f, c = state
-    ops = [("p", s) for s in range(n) if s not in fed and s >= wait]
+    ops = [("p", s) for s in range(n) if s not in fed]       # also a serial that a flush() has skipped and that arrives late
     if f < max_f:
         ops.append(("f",))
     if c < max_c:
@@ -696,8 +697,8 @@ def run(report, tier):
     run_printbuffer(report, b)
     run_ring(report, b["ring_depth"])
     run_long(report)
-    report.assume("serials are fed at most once per epoch and, after PrintBuffer.flush(), only serials >= waiting_for "
-                  "(duplicates and late serials are documented as overwritten / not documented, and are not judged)")
+    report.assume("serials are fed at most once per epoch (duplicates are documented as overwritten and are not judged); a "
+                  "serial skipped by PrintBuffer.flush() may arrive late: print() documents that it is stored for later")
     report.assume("a drain is a complete iteration of the buffer; abandoning the generator half-way is not judged")
 
 
